@@ -1542,7 +1542,7 @@ def distribution(cases, obs):
          'cases_with_writing_bodies_loaded': 0, 'db_goals_in_loaded_bodies': 0, 'queries_on_db_builtins': 0,
          'families': {}, 'model_by_family[compared,cyclic,fuel]': MODEL_BY_FAMILY,
          'nl_histories_with_nonlifo_restart_on_one_predicate': 0, 'nl_nonlifo_events': 0, 'nl_facts_with_variables': 0,
-         'sc_cases[K,depth,max_suspended,model]': [], 'sc_note': 'scale cases with depth 100-200 are not evaluated by the Coq model '
+         'sc_cases[K,depth,max_suspended,model]': [], 'sc_cases_with_an_exception': 0, 'sc_note': 'scale cases with depth 100-200 are not evaluated by the Coq model '
          '(unification fuel 300 / time); their reference is the metamorphic oracle: every generator observes what it observes '
          'as the only generator on an engine with the same database history (run d), plus fresh-alone = interleaved'}
     for c, o in zip(cases, obs):
@@ -1556,6 +1556,9 @@ def distribution(cases, obs):
                 d['nl_facts_with_variables'] += sum(1 for op in h if op[0] == 'assert' and any(_has_var(a) for a in op[3]))
         if fam == 'sc':
             d['sc_cases[K,depth,max_suspended,model]'].append([c['K'], c['depth'], _suspended_profile(c), not c.get('nomodel')])
+            if isinstance(o, dict) and any(x[0] == 'raised' for run in o['interleaved'] for x in run):
+                # an exception in a scale case (e.g. RecursionError of the harness' own stack) would switch the oracle off
+                d['sc_cases_with_an_exception'] = d.get('sc_cases_with_an_exception', 0) + 1
         nw = 0
         for h in c['hist']:
             for op in h:
